@@ -130,6 +130,15 @@ def control_lits(fn, node):
     return out
 
 
+def restrict_lits(fn, node):
+    """[(truth, atom)] of every branch that can keep control from reaching node within the current loop iteration:
+    the conditions a "restricted only by ..." rule has to look at (includes guards written as `A || B`)"""
+    from .engine import restricting_literals
+    hb = loop_head(fn, node)
+    stop = [fn.node(hb, 0)] if hb is not None else []
+    return [(t, a) for (_b, t, a) in restricting_literals(fn, node, stop)]
+
+
 def guarded_by_bit(fn, node, macro, truth, field=None, resolve=True):
     """node executes only if (X & macro) has the given truth"""
     for (t, atom) in control_lits(fn, node):
@@ -248,7 +257,14 @@ def silent_lits(fn, prog, node):
     call, or every return reached from it has a value known non-zero) are dropped: they do not skip
     the event, they fail the operation.  -> [(bid, truth, atom, is_loop_condition)]"""
     out = []
-    for (bid, t, a) in fn.control_literals(node):
+    from .engine import restricting_literals
+    hb_ = loop_head(fn, node)
+    cands, seen_ = [], set()
+    for (bid, t, a) in fn.control_literals(node) + restricting_literals(fn, node, [fn.node(hb_, 0)] if hb_ is not None else []):
+        if bid not in seen_:        # (the second list adds the guards no path *must* satisfy: `A || B`)
+            seen_.add(bid)
+            cands.append((bid, t, a))
+    for (bid, t, a) in cands:
         lit = fn.literal(bid)
         end = fn.block_end(bid)
         taken = 0 if (t == lit[1]) else 1
